@@ -114,6 +114,10 @@ type controller struct {
 
 	// The controller's sources, by watched GVK.
 	sources map[WatchID]*StoppableSource
+
+	// Set once the controller was stopped. A caller may still hold a
+	// pointer to a stopped controller it looked up before the stop.
+	stopped bool
 }
 
 // A WatchGarbageCollector periodically garbage collects watches.
@@ -276,6 +280,7 @@ func (e *ControllerEngine) Stop(ctx context.Context, name string) error {
 
 	// Stop and delete the controller.
 	c.cancel()
+	c.stopped = true
 	delete(e.controllers, name)
 
 	e.log.Debug("Stopped controller", "controller", name)
@@ -396,6 +401,12 @@ func (e *ControllerEngine) StartWatches(name string, ws ...Watch) error {
 	// read lock, so we compute everything again.
 	c.mx.Lock()
 	defer c.mx.Unlock()
+
+	// The controller may have been stopped since we looked it up. Starting a
+	// watch now would register an event handler that nothing ever removes.
+	if c.stopped {
+		return errors.Errorf("controller %q is not running", name)
+	}
 
 	// Another Goroutine may have started one of these watches (and thus its
 	// informer) since we built the map of active informers above. Build it
